@@ -4,7 +4,7 @@
 # usage: confirm_seeded.sh C09   -> writes /tmp/wt_C09/OUT/{A,B}/confirm.json
 P=$1
 export OMP_NUM_THREADS=1 OPENBLAS_NUM_THREADS=1 MKL_NUM_THREADS=1
-W=/tmp/wt_$P
+W=${SEED_PREFIX:-/tmp/wt_}$P
 for X in A B; do
   D=$W/OUT/$X
   [ -f $D/patch.diff ] || continue
